@@ -51,20 +51,21 @@ def _calls(calls):
 def _trace_class(exp_outcome, exp_calls, ev):
     """class of a rejected trace event (stable signature)"""
     got = ev["calls"]
+    exp_strings = [x["s"] for ec in exp_calls for x in ec["args"] if x.get("t") == "s"]
+    # a tab that ended up inside a name or an argument: one class, whatever the consequence
     for c in got:
         for a in c["args"]:
-            if a.get("t") == "s" and 9 in a["s"] and not any(
-                    x.get("t") == "s" and 9 in x["s"] for ec in exp_calls for x in ec["args"]):
+            if a.get("t") == "s" and 9 in a["s"] and a["s"] not in exp_strings:
                 return "tab-not-a-separator"
+    if not got and ev["outcome"] == "error" and exp_outcome != "error" and 9 in ev["units"]:
+        return "tab-not-a-separator"
     if ev["outcome"] == "panic":
         return "panic"
     if exp_outcome == "stop":
         return "stop-dispatched" if got else "stop-outcome-" + ev["outcome"]
     if exp_outcome == "error":
         return "unknown-name-dispatched" if got else "unknown-name-no-error"
-    if ev["outcome"] not in ("call",):
-        if ev["outcome"] == "error" and not got and any(9 in ev["units"][i:i + 1] for i in range(len(ev["units"]))):
-            return "tab-not-a-separator"
+    if ev["outcome"] != "call":
         return "registered-name-" + ev["outcome"]
     if len(got) != 1:
         return "handler-calls-%d" % len(got)
